@@ -627,6 +627,16 @@ func (env *SpecEnv) call(e *SExpr) (SpecVal, error) {
 			return SpecVal{}, err
 		}
 		return SpecVal{V: tv("(aref " + env.term(args[0]) + ")"), Go: gt}, nil
+	case "box":
+		// box(p): the interface value holding the Go value p (as MakeInterface would build it)
+		if len(args) != 1 || args[0].Go == nil {
+			return SpecVal{}, fmt.Errorf("box(x) needs a Go-typed value")
+		}
+		v := args[0].V
+		if args[0].Cell != nil {
+			v = tv(env.term(args[0]))
+		}
+		return SpecVal{V: tv(x.box(v, args[0].Go)), So: "Any"}, nil
 	case "cast":
 		// cast(x, "*pkg.T"): the term x (a reference) viewed as a pointer of that Go type
 		if len(e.Args) != 2 || e.Args[1].Kind != SStr {
@@ -729,8 +739,13 @@ func (env *SpecEnv) call(e *SExpr) (SpecVal, error) {
 	}
 	// code lemmas: a call of a real function of the package (executed from its SSA,
 	// or replaced by its contract when it has one)
-	if env.lemma && env.spkg != nil {
-		if f := env.spkg.Func(e.Name); f != nil && f.Blocks != nil {
+	if env.spkg == nil && env.pkg != nil && !env.lemma {
+		// function contracts may call small pure helpers of their own package (key
+		// builders): executed from their SSA like in a code lemma
+		env.spkg = x.V.Pkgs[env.pkg.Path()]
+	}
+	if env.spkg != nil {
+		if f := env.spkg.Func(e.Name); f != nil && f.Blocks != nil && (env.lemma || x.V.contractFor(f) == nil && x.canInline(f)) {
 			var vals []Val
 			for _, a := range args {
 				if a.Cell != nil {
@@ -740,8 +755,12 @@ func (env *SpecEnv) call(e *SExpr) (SpecVal, error) {
 				}
 			}
 			var out Val
-			x.reach = "true"
+			savedReach := x.reach
+			if env.lemma || x.reach == "" {
+				x.reach = "true"
+			}
 			x.callFunction(f, nil, vals, nil, func(v Val) { out = v }, f.Pos())
+			x.reach = savedReach
 			res := f.Signature.Results()
 			switch res.Len() {
 			case 0:
